@@ -1475,9 +1475,26 @@ pub mod hf2 {
     use crate::util::*;
     use crate::p2::bounding_volume::Aabb;
     use crate::p2::na::DVector;
-    use crate::p2::shape::HeightField;
-    use d2::{Point, Vector};
+    use crate::p2::shape::{HeightField, Segment, Shape};
+    use crate::p2::query::{ClosestPoints, Contact, DefaultQueryDispatcher, NonlinearRigidMotion, QueryDispatcher, ShapeCastHit, ShapeCastOptions, Unsupported};
+    use crate::p2::query::details::cast_shapes_heightfield_shape;
+    use crate::p2::bounding_volume::BoundingVolume;
+    use d2::{Isometry, Point, Vector};
 
+    pub struct Rec(pub std::sync::Mutex<Vec<Segment>>);
+    impl QueryDispatcher for Rec {
+        fn intersection_test(&self, p: &Isometry<f64>, g1: &dyn Shape, g2: &dyn Shape) -> Result<bool, Unsupported> { DefaultQueryDispatcher.intersection_test(p, g1, g2) }
+        fn distance(&self, p: &Isometry<f64>, g1: &dyn Shape, g2: &dyn Shape) -> Result<f64, Unsupported> { DefaultQueryDispatcher.distance(p, g1, g2) }
+        fn contact(&self, p: &Isometry<f64>, g1: &dyn Shape, g2: &dyn Shape, pr: f64) -> Result<Option<Contact>, Unsupported> { DefaultQueryDispatcher.contact(p, g1, g2, pr) }
+        fn closest_points(&self, p: &Isometry<f64>, g1: &dyn Shape, g2: &dyn Shape, m: f64) -> Result<ClosestPoints, Unsupported> { DefaultQueryDispatcher.closest_points(p, g1, g2, m) }
+        fn cast_shapes(&self, p: &Isometry<f64>, v: &Vector<f64>, g1: &dyn Shape, g2: &dyn Shape, o: ShapeCastOptions) -> Result<Option<ShapeCastHit>, Unsupported> {
+            if let Some(sg) = g1.as_segment() { self.0.lock().unwrap().push(*sg); }
+            DefaultQueryDispatcher.cast_shapes(p, v, g1, g2, o)
+        }
+        fn cast_shapes_nonlinear(&self, m1: &NonlinearRigidMotion, g1: &dyn Shape, m2: &NonlinearRigidMotion, g2: &dyn Shape, s: f64, e: f64, st: bool) -> Result<Option<ShapeCastHit>, Unsupported> {
+            DefaultQueryDispatcher.cast_shapes_nonlinear(m1, g1, m2, g2, s, e, st)
+        }
+    }
     pub struct H { pub hs: Vec<f64>, pub st: Vec<bool>, pub sc: Vector<f64> }
     pub fn h(a: &mut Args) -> H { let n = a.u(); let hs = (0..n).map(|_| a.f()).collect(); let st = (0..n - 1).map(|_| a.u() != 0).collect(); H { hs, st, sc: d2::v(a) } }
     pub fn hh(x: &H) -> String { format!("{} {} {} {}", x.hs.len(), hxs(x.hs.iter()), x.st.iter().map(|s| if *s { "1" } else { "0" }).collect::<Vec<_>>().join(" "), d2::hv(&x.sc)) }
@@ -1492,6 +1509,17 @@ pub mod hf2 {
                 match f.cell_at_point(&p) { None => "none".into(), Some(i) => format!("some {}", i) } }
             "hf2_range" => { let x = h(a); let f = build(&x); let b = Aabb::new(d2::p(a), d2::p(a));
                 let r = f.unclamped_elements_range_in_local_aabb(&b); format!("{} {}", r.start, r.end) }
+            // the cell walk of the 2-D cast_shapes_heightfield_shape, observed through a recording dispatcher that forwards
+            // every per-segment cast to the default dispatcher
+            "hf2_walk" => { let x = h(a); let f = build(&x); let _ab = Aabb::new(d2::p(a), d2::p(a)); let vel = d2::v(a); let mt = a.f();
+                let td = a.f(); let sp = a.u() != 0; let pos12 = d2::iso(a); let s = super::comp2::sh(a); let g2 = super::comp2::dynsh(&s);
+                let rec = Rec(std::sync::Mutex::new(Vec::new()));
+                let opts = ShapeCastOptions { max_time_of_impact: mt, target_distance: td, stop_at_penetration: sp, compute_impact_geometry_on_penetration: true };
+                let res = cast_shapes_heightfield_shape(&rec, &pos12, &vel, &f, &*g2, opts);
+                if res.is_err() { return "unsupported".into(); }
+                let segs = rec.0.lock().unwrap();
+                let ids: Vec<String> = segs.iter().map(|sg| match (0..f.num_cells()).find(|i| f.segment_at(*i).map(|t| t.a == sg.a && t.b == sg.b).unwrap_or(false)) { Some(i) => i.to_string(), None => "?".into() }).collect();
+                format!("ids {}", ids.join(" ")).trim_end().to_string() }
             "hf2_elems" => { let x = h(a); let f = build(&x); let b = Aabb::new(d2::p(a), d2::p(a));
                 let mut ids = Vec::new(); f.map_elements_in_local_aabb(&b, &mut |i, _| ids.push(i.to_string()));
                 format!("ids {}", ids.join(" ")).trim_end().to_string() }
@@ -1539,6 +1567,20 @@ pub mod hf2 {
             let b = format!("{} {} {} {}", hx(x0), hx(y0), hx(x1), hx(y1));
             v.push(("hf2_range".into(), format!("{} {}", s, b)));
             v.push(("hf2_elems".into(), format!("{} {}", s, b)));
+            // cell walk: a small shape somewhere above / left / right of the heightfield moving mostly sideways (both ways),
+            // straight down, or barely sideways; time limits that stop the walk early or never
+            let sh = match r.below(4) { 0 => super::comp2::Sh2::Ball(*r.pick(&[0.25, 0.5, 1.0])), 1 => super::comp2::Sh2::Cuboid(Vector::new(*r.pick(&[0.1, 0.5, 2.0]), 0.25)),
+                2 => super::comp2::Sh2::Segment(Point::new(0.5, 0.0), Point::new(1.5, 0.25)), _ => super::comp2::gen_other(r, lat) };
+            let px = match r.below(4) { 0 => *r.pick(&[-0.5, 0.5]) * x.sc.x, 1 => *r.pick(&[-0.75, 0.75, -2.0, 2.0]) * x.sc.x, _ => gen_x(r, &x, &f) };
+            let py = *r.pick(&[0.0, 1.0, 3.0, -1.0]) * x.sc.y;
+            let pos12 = if lat || r.bool() { Isometry::translation(px, py) } else { Isometry::new(Vector::new(px, py), r.uniform(-3.0, 3.0)) };
+            let vel = match r.below(6) { 0 => Vector::new(0.0, -1.0), 1 => Vector::new(*r.pick(&[1.0, -1.0, 2.0, -0.5]), 0.0), 2 => Vector::new(*r.pick(&[1.0e-3, -1.0e-3]), -1.0),
+                _ => Vector::new(*r.pick(&[1.0, -1.0, 3.0, -3.0]) * if lat { 1.0 } else { r.uniform(0.2, 1.5) }, *r.pick(&[0.0, -0.25, -1.0, 0.5])) };
+            let mt = *r.pick(&[0.5, 1.0, 2.0, 10.0, 1.0e3, f64::MAX]) * if r.below(4) == 0 { x.sc.x } else { 1.0 };
+            let td = *r.pick(&[0.0, 0.0, 0.25]); let sp = r.bool();
+            let g2 = super::comp2::dynsh(&sh);
+            let ab = g2.compute_aabb(&pos12).loosened(td);
+            v.push(("hf2_walk".into(), format!("{} {} {} {} {} {} {} {} {}", s, d2::hp(&ab.mins), d2::hp(&ab.maxs), d2::hv(&vel), hx(mt), hx(td), sp as u8, d2::hiso(&pos12), super::comp2::hsh(&sh))));
         }
         v
     }
